@@ -149,6 +149,8 @@ pub struct SzxOptions {
     /// stream (one stored block followed by a deflated rest) of exactly that many bytes, when the page content
     /// allows it (see `zlib_exact`)
     pub zlib_exact: Option<(usize, usize)>,
+    /// header byte 7 (chFlags; bit 0 = "alternate timings" of the writing emulator's model)
+    pub hdr_flags: u8,
 }
 
 fn adler32(data: &[u8]) -> u32 {
@@ -296,7 +298,7 @@ pub fn write_szx(s: &SnapState, opt: &SzxOptions) -> Vec<u8> {
     out.push(1);
     out.push(4);
     out.push(if s.m128 { 2 } else { 1 });
-    out.push(0);
+    out.push(opt.hdr_flags);
     for c in chunks {
         out.extend_from_slice(&c);
     }
